@@ -190,3 +190,39 @@ Definition residual_ok_floor (L : list (list Qc)) (r alpha : list Qc) (tol floor
   (length L =? length r)%nat &&
   let bound := tol * Qc_max (residual_scale L r alpha) floor in
   forallb2 (fun row ri => Qc_leb (Qc_abs (dotQ row alpha - ri)) bound) L r.
+
+(* ------------------------------------------------------------------ Opticom (coefficient optimisation) *)
+(* the step all six variants end with (after fix commit 3b1bdbd):
+       length = np.sum(raw);  if length == 0 or not np.isfinite(length): return   # keep the combination coefficients
+       coefficient_i = raw_i / length
+   raw = None models a raw coefficient vector that is not finite (a division by a validation error 0: inf / nan) *)
+Definition opticom_finish (raw : option (list Qc)) (coefs : list Qc) : list Qc :=
+  match raw with
+  | None => coefs
+  | Some cs => let s := sumQ cs in if Qc_eqb s 0 then coefs else map (fun c => c / s) cs
+  end.
+
+(* sklearn.metrics.mean_squared_error(targets, predictions) *)
+Definition mse (y p : list Qc) : Qc := sumQ (map2 (fun a b => (a - b) * (a - b)) y p) / qc_of_nat (length y).
+
+(* option 3, optimize_coefficients_error_per_grid(_spatially_adaptive): coefficient_i / error_i; numpy turns x / 0 into
+   inf or nan, the sum is then not finite *)
+Definition error_per_grid_raw (coefs errs : list Qc) : option (list Qc) :=
+  if existsb (fun e => Qc_eqb e 0) errs then None else Some (map2 (fun c e => c / e) coefs errs).
+
+(* a component grid of the scheme: its level vector (uniform) or its stripes (dimension-wise), surpluses, coefficient;
+   predictions = interpolate_points_component_grid at the validation points (hats times surpluses, summed) *)
+Definition predict_uniform (lv : list Z) (alphas : list Qc) (pts : list (list Qc)) : list Qc := map (interp_uniform lv alphas) pts.
+Definition predict_nonuniform (stripes : list (list Qc)) (alphas : list Qc) (pts : list (list Qc)) : list Qc :=
+  map (interp (grid_hats stripes) alphas) pts.
+
+Definition opticom3 (preds : list (list Qc)) (coefs vy : list Qc) : list Qc :=
+  opticom_finish (error_per_grid_raw coefs (map (mse vy) preds)) coefs.
+
+(* option 2, optimize_coefficients_minimize_whole_error: matrix[j][i] = prediction of grid i at validation point j;
+   coefficients = lstsq(matrix, validation targets) (replaced by a certificate checked with residual_ok_floor on the normal
+   equations matrix^T matrix c = matrix^T y, both sides divided by the number of validation points); then the common step *)
+Definition opticom2_matrix (preds : list (list Qc)) : list (list Qc) := transpose preds.     (* rows = validation points *)
+Definition opticom2_certified (preds : list (list Qc)) (vy raw : list Qc) (tol : Qc) : bool :=
+  let Mx := opticom2_matrix preds in
+  residual_ok_floor (left_matrix Mx 0 false []) (right_vector Mx vy) raw tol (residual_floor Mx vy).
